@@ -51,7 +51,59 @@ UNITS['c07'] = {
     ],
 }
 
+UNITS['lex'] = {
+    'template': 'contracts/lex.vrs',
+    'mutants': [
+        ('range_start_only', 'list.push(token, range);', 'list.push(token, range.start..range.start);', ['C11.tok', 'C04.lex.tokenize']),
+        ('quoted_keeps_delimiter', 'str_slice(input, 1..len - 1)', 'str_slice(input, 1..len)', ['C11.tok', 'C04.lex']),
+        ('prefixed_keeps_prefix', 'str_slice_from(input, 1)', 'str_slice_from(input, 0)', ['C11.tok', 'C04.lex']),
+        ('number_unwrap', 'str_parse_u64(input).ok()', 'Some(str_parse_u64(input).unwrap())', ['C04.lex']),
+        ('error_dropped', 'Err(_) => { let span = Span::new(loc.clone(), range); errors.push(ParserError::new(span));', 'Err(_) => { let span = Span::new(loc.clone(), range);', ['C11.tok', 'C04.lex.tokenize']),
+        ('http_status_off_by_one', "'4' => atom::HttpStatusRange::ClientError,", "'4' => atom::HttpStatusRange::ServerError,", ['C11.tok', 'C04.lex']),
+    ],
+}
+
+_KANI_STATUS = {'package': 'vk-status', 'harness': 'status_try_from_total_and_domain', 'bounded': False,
+                'bound': 'loop-free, full u64 domain (complete)', 'tier': 'quick', 'decode': 'raw', 'timeout': 900}
+
 PROPS = {
+    'C04': {
+        'units': ['lex', 'c07', 'c16'],
+        'kani': [dict(_KANI_STATUS, obligation='C04.status.try_from.total')],
+        'level': 'other',
+        'obligation_prefixes': ['C04.', 'C07.occurs.terminates', 'C07.occurs.nopanic', 'C07.uf.terminates', 'C07.uf.nopanic', 'C16.p2u.no_overflow', 'C16.u2p.no_overflow',
+                                'C16.p2u.body', 'C16.u2p.body', 'C16.range.body'],
+        'technique': 'Verus totality contracts (no panic / overflow / out-of-bounds slice, termination) on the real lexer conversions, tokenize, occurs, union-find and position conversions; complete Kani proof for HttpStatus::try_from',
+        'level_text': 'Function-level totality, for all inputs, of every front-end function within reach of the verifiers: tokenize and the four token-value conversions '
+                      '(against lexical shapes derived mechanically from the real #[regex]/#[token] patterns), occurs, UnionFind, the LSP position conversions (Verus), '
+                      'HttpStatus::try_from over the full u64 domain incl. its unsafe block (Kani, complete). The parser, resolver, unify/reduce, evaluator and the server loops '
+                      'are not within reach, so the property as a whole is not decided: level other.',
+        'level_note': 'Trusted: the LOGOS contract (ranges tile the input on char boundaries; an Ok(kind) slice matches kind\'s pattern) with pattern consequences computed by tools/logos_shape.py; '
+                      'std str slicing/len/parse::<u64>/chars().next() contracts (R-local rewrites to shim functions, logged); TokenList/interner shim. '
+                      'Not decided: parser combinators (closures capturing &mut Context), memoize, resolve, unify/reduce/substitute, eval, CLI/LSP loops, stack depth.',
+        'design_ref': 'DESIGN.md section 5, C04',
+        'explanation': 'Decides absence of panics/overflow/non-termination for: lexer.rs tokenize + parse_number/parse_http_status/parse_quoted_string/parse_prefixed_string, '
+                       'atom.rs HttpStatus::try_from (Kani complete), unify.rs occurs, union.rs UnionFind::{insert,reduce,reduce_mut,union,find}, unicode.rs conversions. '
+                       'These are the functions of the statement\'s "number size or Unicode content" clause; the token-order clause (parser) is out of reach.',
+        'assumptions': ['LOGOS contract', 'std string API contracts as stated in contracts/lex.vrs', 'texts below 2^30 characters for the position conversions'],
+        'not_decided': ['tokenizer+parser on arbitrary token sequences (parser out of reach)', 'single-file compile entry point, CLI, LSP load/evaluate cycle', 'stack depth under nesting <= 200', 'termination of union::reduce/substitute/resolve'],
+    },
+    'C11': {
+        'units': ['lex'],
+        'level': 'other',
+        'obligation_prefixes': ['C11.'],
+        'technique': 'Verus contract on the real tokenize: tokens and error spans are exactly the lexer\'s ranges in order (tiling), each token carries the value its source slice denotes; ordering/tiling/in-text lemmas',
+        'level_text': 'Deductive proof (Verus/Z3) of the lexical layer only, for every input text: tokenize keeps every lexer range (as a token or as an error span), in order; '
+                      'tokens therefore tile the text without overlap on character boundaries, and each token\'s value is the source slice of its span (minus the delimiter the '
+                      'conversion removes). The tree-leaf / node-span clauses need the parser and NodeRef recursion (out of reach): level other.',
+        'level_note': 'Trusted: LOGOS contract, TokenList/interner shim (push appends, resolve(register(s)) == s, symbols stable), std string API contracts. '
+                      'Not decided: leaves of the syntax tree, node span = hull of leaves, spans of compiler errors, TokenList::{head,advance,token_span,end} and Context::span (closure-taking Option combinators over generational_token_list).',
+        'design_ref': 'DESIGN.md section 5, C11',
+        'explanation': 'Decides clauses "tokens tile the source text in order without overlap" and "each token\'s text is the source slice of its span", plus "lexical error spans lie within the text on character boundaries". '
+                       'Does not decide the clauses about tree leaves and node spans.',
+        'assumptions': ['LOGOS contract (logos crate behaves as documented)', 'generational_token_list keeps insertion order'],
+        'not_decided': ['leaves of the tree are exactly the non-trivia tokens of the parsed prefix', 'a node\'s span is the hull of its leaves', 'spans attached to parser / compiler diagnostics and definitions', 'end-of-input span of Context::span'],
+    },
     'C07': {
         'units': ['c07'],
         'level': 'other',
@@ -162,9 +214,7 @@ NOT_APPLICABLE = {
     'C18': 'rename correctness is alpha-equivalence of two whole programs (C05 shape) and depends on the resolver invariant (C08)',
     'C01': 'contract not completed yet (see DESIGN.md section 5, C01)',
     'C03': 'contract not completed yet',
-    'C04': 'contract not completed yet',
     'C10': 'contract not completed yet',
-    'C11': 'contract not completed yet',
 }
 
 
